@@ -94,6 +94,18 @@ func (sc *SpecializationCache) InvalidateSpecializations(routeName string) {
 	}
 }
 
+// InvalidateAll marks every specialization of every route as invalid
+func (sc *SpecializationCache) InvalidateAll() {
+	sc.mutex.Lock()
+	defer sc.mutex.Unlock()
+
+	for _, specs := range sc.specializations {
+		for _, spec := range specs {
+			spec.IsValid = false
+		}
+	}
+}
+
 // RecordMiss records a specialization miss
 func (sc *SpecializationCache) RecordMiss(routeName string) {
 	sc.mutex.Lock()
